@@ -23,7 +23,7 @@ def gen(rng, depth, w, vars_):
             lo = rng.randrange(0, vw - w + 1)
             return ir.slc(n, lo, w), z3.Extract(lo + w - 1, lo, z)
         return ir.zext(n, w), z3.ZeroExt(w - vw, z)
-    op = rng.choice(['xor', 'and', 'or', 'add', 'addk', 'cat', 'slc', 'shl', 'rot', 'ite', 'not', 'sub', 'mulc', 'sext', 'narrowsum', 'shrsum'])
+    op = rng.choice(['xor', 'and', 'or', 'add', 'addk', 'cat', 'slc', 'shl', 'rot', 'ite', 'not', 'sub', 'mulc', 'sext', 'narrowsum', 'shrsum', 'zextsum'])
     if op in ('xor', 'and', 'or'):
         a, za = gen(rng, depth - 1, w, vars_)
         b, zb = gen(rng, depth - 1, w, vars_)
@@ -90,6 +90,19 @@ def gen(rng, depth, w, vars_):
             return ir.cat([ir.slc(s, 0, w1), ir.slc(s, w1, w - w1)]), z3.Extract(w - 1, 0, zs)
         lo = rng.randrange(0, W - w + 1)
         return ir.slc(s, lo, w), z3.Extract(lo + w - 1, lo, zs)
+    if op == 'zextsum' and w >= 4:
+        # sums whose syntactic bound stays below the top bit (narrowed to their own width), zero-extended and added again
+        w1 = rng.randrange(2, w)
+        u1, u2 = rng.randrange(1, w1), rng.randrange(1, w1)
+        a, za = gen(rng, depth - 1, u1, vars_)
+        b, zb = gen(rng, depth - 1, u2, vars_)
+        c = rng.getrandbits(max(1, w1 - 2)) if rng.random() < 0.5 else 0
+        k = rng.choice([1, 1, 2, 3])
+        s1 = ir.add(w1, [(ir.zext(a, w1), 1), (ir.zext(b, w1), k)], c)
+        z1 = z3.ZeroExt(w1 - u1, za) + z3.ZeroExt(w1 - u2, zb) * z3.BitVecVal(k, w1) + z3.BitVecVal(c, w1)
+        d, zd = gen(rng, depth - 1, w, vars_)
+        k2 = rng.choice([1, 2, 5])
+        return ir.add(w, [(ir.zext(s1, w), k2), (d, 1)]), z3.ZeroExt(w - w1, z1) * z3.BitVecVal(k2, w) + zd
     if op == 'shrsum':
         # sum of terms with common low zero bits, sliced above them
         j = rng.randrange(1, 4)
